@@ -51,6 +51,9 @@ RULE = (
     "after the catch the next unshielded checkpoint inside a still cancelled scope raises again) plus the invariants (no timed unshielded sleep completes "
     "inside a scope cancelled >= 10 ms earlier, cancelling() bookkeeping at scope exits, registries/handles); counters catch_programs / "
     "catch_runs_with_swallowed_cancellation. "
+    "Template family nest3 (nesting 4, 6-9 nodes): S1{S2{S3{X}; Y}; Z} with every assignment of {move_on_after(0.53), move_on_after(1.57), scope(inf)} to the three scopes, "
+    "X = every sequence of 1..2 (thorough 1..3) statements over {shield{sleep(2)}, shield{sleep(1)}, yield_, sleep(1), cancel(0), cancel(1), cancel(2)}, Y in {-, sleep(1), yield_}, Z in {-, sleep(1)}; "
+    "run without external cancel (thorough: plus the timed midpoints). "
     "distinct_nontrivial = distinct (program shape = nesting of the scope/shield/group statements + set of leaf statements used, injection kind, "
     "where the cancel landed, task outcome, (cancel_called, cancelled_caught) of every scope in exit order) among runs in which an external cancel was actually delivered, "
     "plus distinct (shape, outcome, scope flags, number of swallowed cancellations) of the catch-runs in which a catch{} really swallowed a CancelledError"
@@ -78,13 +81,40 @@ _A = {
     "catch": "sleep {1}, yield_, move_on_after {0,0.53}, scope {inf}, cancel k in {0,1}, shield, catch, no group",
 }
 BOUNDS = {
-    "quick": f"nesting <= 3; ALL programs with <= 4 nodes over [{_A['base']}] + ALL with <= 3 nodes over [{_A['rich']}] + ALL with exactly 5 nodes over [{_A['slim5']}] and over [{_A['shield5']}] + ALL with <= 4 nodes that contain a catch over [{_A['catch']}] (no external cancel for these)",
-    "thorough": f"nesting <= 3; ALL programs with <= 5 nodes over [{_A['base']}] + ALL with <= 4 nodes over [{_A['rich']}] + ALL with exactly 6 nodes over [{_A['slim6']}] + ALL with <= 5 nodes that contain a catch over [{_A['catch']}] (no external cancel for these)",
+    "quick": f"nesting <= 3; ALL programs with <= 4 nodes over [{_A['base']}] + ALL with <= 3 nodes over [{_A['rich']}] + ALL with exactly 5 nodes over [{_A['slim5']}] and over [{_A['shield5']}] + ALL with <= 4 nodes that contain a catch over [{_A['catch']}] (no external cancel for these) + the 9072 programs of the nest3 template (no external cancel)",
+    "thorough": f"nesting <= 3; ALL programs with <= 5 nodes over [{_A['base']}] + ALL with <= 4 nodes over [{_A['rich']}] + ALL with exactly 6 nodes over [{_A['slim6']}] + ALL with <= 5 nodes that contain a catch over [{_A['catch']}] (no external cancel for these) + the 64638 programs of the nest3 template (none + timed midpoints)",
 }
 
 
+def nest3_programs(tier: str):
+    """Template family (nesting 4, 6-9 nodes - beyond what the general enumeration reaches): THREE nested scopes S1{S2{S3{X}; Y}; Z}
+    with every assignment of {move_on_after(0.53), move_on_after(1.57), scope(inf)} to S1..S3, X = every sequence of 1..2 (thorough 3)
+    statements over {shield{sleep(2)}, shield{sleep(1)}, yield_, sleep(1), cancel(0), cancel(1), cancel(2)}, Y in {nothing, sleep(1), yield_},
+    Z in {nothing, sleep(1)}: a cancelled scope separated from a cancelled inner scope by one that is not cancelled, deliveries postponed
+    by a shield."""
+    heads = (("moa", 0.53), ("moa", 1.57), ("scope", INF))
+    items = (("shield", (("sleep", 2.0),)), ("shield", (("sleep", 1.0),)), ("yield",), ("sleep", 1.0), ("cancel", 0), ("cancel", 1), ("cancel", 2))
+    import itertools
+
+    xs: list[tuple] = []
+    for n in range(1, (2 if tier == "quick" else 3) + 1):
+        xs.extend(itertools.product(items, repeat=n))
+    ys = ((), (("sleep", 1.0),), (("yield",),))
+    zs = ((), (("sleep", 1.0),))
+    for h1 in heads:
+        for h2 in heads:
+            for h3 in heads:
+                for x in xs:
+                    for y in ys:
+                        for z in zs:
+                            yield ((h1[0], h1[1], ((h2[0], h2[1], ((h3[0], h3[1], tuple(x)),) + y),) + z),)
+
+
 def tier_programs(tier: str):
-    """Deterministic enumeration of every program of the tier (families in order, no program twice)."""
+    """Deterministic enumeration of every program of the tier (template family first, then the general families in order; the few
+    template programs that are also general programs of <= 4 nodes are simply run twice)."""
+    for prog in nest3_programs(tier):
+        yield ("nest3", prog)
     for _name, kw, lo, hi, seen_kw, must in TIERS[tier]:
         alpha = Alphabet(**kw)
         seen = Alphabet(**seen_kw) if seen_kw else None
@@ -95,7 +125,7 @@ def tier_programs(tier: str):
                 continue
             if seen is not None and seen.contains(prog):
                 continue
-            yield prog
+            yield ("general", prog)
 
 
 def jobs(tier: str) -> list[dict]:
@@ -223,7 +253,7 @@ def shape_digest(prog: tuple, kind: str, real: Real) -> str:
     return digest((shape(prog), kind, situation(real.inj), real.root.outcome if real.root else None, flags))
 
 
-def check_program(prog: tuple, res: JobResult, sink: _Sink) -> None:
+def check_program(prog: tuple, res: JobResult, sink: _Sink, family: str = "general", tier: str = "quick") -> None:
     res.count("programs")
     refs0 = RefSet(prog)
     if refs0.tie:
@@ -272,6 +302,10 @@ def check_program(prog: tuple, res: JobResult, sink: _Sink) -> None:
         return real
 
     real0 = one(None, refs0, "trace")
+    if family == "nest3":
+        res.count("nest3_programs")
+        if tier == "quick":
+            return  # quick tier: this family runs without external cancel (thorough: plus the timed midpoints)
     if has_catch:
         # no external cancel for these: what a program that swallows a foreign task.cancel() must do afterwards is not specified
         res.count("catch_programs")
@@ -285,7 +319,7 @@ def check_program(prog: tuple, res: JobResult, sink: _Sink) -> None:
             res.outcome("skipped:timer-tie")
             continue
         one(("t", x), refsx, "trace")
-    if real0.status == "ok":
+    if real0.status == "ok" and family != "nest3":
         # select #1 runs the harness' main(), #2 is the boundary before the program's first step: a task cancelled there never
         # executes a line of the program or of the library (pure asyncio) - exercised for the smallest programs only
         for k in range(2 if size(prog) <= 2 else 3, real0.sel_end + 1):
@@ -313,9 +347,9 @@ def run_job(job: dict) -> JobResult:
     res = JobResult()
     sink = _Sink(res)
     part, parts = job["part"], job["parts"]
-    for i, prog in enumerate(tier_programs(job["tier"])):
+    for i, (family, prog) in enumerate(tier_programs(job["tier"])):
         if i % parts == part:
-            check_program(prog, res, sink)
+            check_program(prog, res, sink, family, job["tier"])
     sink.flush()
     res.transitions = res.counters.get("injections", 0)
     return res
